@@ -43,6 +43,30 @@ theorem headerOf_of_runs (o : Oracle) (rawB64 hb : Bytes) (hdr : Header)
 def ProtDecoded (o : Oracle) (s : Signature) : Prop :=
   ∀ p, s.prot = some p → HeaderOf o s.rawProtected p
 
+/-- with no unprotected header (compact serialisation, JWT) the algorithm is the protected header's -/
+theorem Signature.alg_of_protected_only (s : Signature) (p : Header) (h1 : s.prot = some p)
+    (h2 : s.header = none) : s.alg = p.alg := by
+  unfold Signature.alg Signature.unprotAlg
+  rw [h1, h2]
+  simp only
+  split
+  · rename_i h
+    simp [Gen.Consts.jwa.SignatureAlgorithmUnknown] at h
+    exact h.symm
+  · rfl
+
+/-- a protected header that names an algorithm decides it, whatever the unprotected header says -/
+theorem Signature.alg_of_protected_named (s : Signature) (p : Header) (h1 : s.prot = some p)
+    (hne : p.alg ≠ "") : s.alg = p.alg := by
+  unfold Signature.alg
+  rw [h1]
+  simp only
+  split
+  · rename_i h
+    simp [Gen.Consts.jwa.SignatureAlgorithmUnknown] at h
+    exact absurd h hne
+  · rfl
+
 /-- Signature entry `s` was verified against `sigContent`: its algorithm is named (protected header
     first, else unprotected), allowed by the configuration, the key is the key finder's answer for
     exactly `(s.prot, s.header)`, and the primitive accepted exactly
